@@ -5,6 +5,15 @@ from odata_query import ast, exceptions, typing, visitor
 
 log = logging.getLogger(__name__)
 
+# Binding strength of the arithmetic operators, higher binds tighter:
+ARITHMETIC_PRECEDENCE = {
+    ast.Add: 1,
+    ast.Sub: 1,
+    ast.Mult: 2,
+    ast.Div: 2,
+    ast.Mod: 2,
+}
+
 
 class AstToSqlVisitor(visitor.NodeVisitor):
     """
@@ -129,7 +138,27 @@ class AstToSqlVisitor(visitor.NodeVisitor):
         right = self.visit(node.right)
         op = self.visit(node.op)
 
+        # In case of a subexpression that binds less tightly than this operator
+        # (or equally tight, on the right-hand side), wrap it in parentheses:
+        if self._binop_operand_needs_parens(node.left, node.op, False):
+            left = f"({left})"
+        if self._binop_operand_needs_parens(node.right, node.op, True):
+            right = f"({right})"
+
         return f"{left} {op} {right}"
+
+    @staticmethod
+    def _binop_operand_needs_parens(
+        operand: ast._Node, op: ast._BinOpToken, is_right_operand: bool
+    ) -> bool:
+        ":meta private:"
+        if isinstance(operand, (ast.BoolOp, ast.Compare, ast.UnaryOp)):
+            return True
+        if isinstance(operand, ast.BinOp):
+            inner = ARITHMETIC_PRECEDENCE[type(operand.op)]
+            outer = ARITHMETIC_PRECEDENCE[type(op)]
+            return inner < outer or (is_right_operand and inner == outer)
+        return False
 
     def visit_Eq(self, node: ast.Eq) -> str:
         ":meta private:"
